@@ -118,6 +118,13 @@ CHECKS = {
           'merging records and translates every copied constituent unconditionally.',
   'note': 'Correctness and type preservation of the resulting schema, and totality of the translations as data, are value-level and not decided. EntityTranslation::SuperposeWith/SubstituteValues themselves are trusted (header-only helpers).',
  },
+ 'C19': {
+  'technique': 'CO-UPDATE and guard-before-mutation path rules, who-may-write inventory for the hash / outdated flags, call-chain + guard rule for the outdated propagation, order rule for the execution pipeline',
+  'text': 'Decides: a pictogram enters and leaves all its tables together; operations are created only for two distinct existing operands recorded as parents, only leaves can be erased, refusals precede any change; '
+          'a change of a source\'s core hash reaches OnCoreChange (unless notifications are suspended), which marks every child operation with a stored result outdated; coreHash and outdated have only the listed writers; '
+          'StatusOf reports done only for an unbroken, up-to-date operation with a stored result; Execute runs its stages as successive refusing guards, prepares parents, and a stored result clears the flags and updates every child.',
+  'note': 'Equality of an executed result with a fresh synthesis of the parents and the carrying-over of user additions (RSAggregator) are not decided. Acyclicity of documents loaded through LoadParent is NOT claimed: the loader only rejects direct 2-cycles.',
+ },
 }
 
 _PENDING = 'rule module not yet implemented in this round; see DESIGN.md section 4 for the clauses planned'
